@@ -129,6 +129,89 @@ def prepare_base():
     return ctx
 
 
+_SECTION_RE = re.compile(
+    r"link_section\s*=\s*\"(component-type:[^\"]*)\"\)?\]\s*(?:#\[[^\]]*\]\s*)*pub static \w+\s*:\s*\[u8;\s*(\d+)\]\s*=\s*\*b\"", re.S)
+
+
+def eval_byte_string(text, start):
+    """Evaluate a Rust byte-string literal body starting at text[start] (just
+    after `b"`) with rustc's rules: escapes \\0 \\n \\r \\t \\\\ \\' \\" \\xNN, and a
+    backslash-newline continuation that skips the newline and ALL following
+    whitespace.  Returns (bytes, end_index) or (None, why)."""
+    out = bytearray()
+    i = start
+    n = len(text)
+    while i < n:
+        c = text[i]
+        if c == '"':
+            return bytes(out), i
+        if c != "\\":
+            if ord(c) > 0x7f:
+                return None, "non-ASCII character in byte string"
+            if c == "\r" and i + 1 < n and text[i + 1] == "\n":
+                i += 1
+                c = "\n"
+            out.append(ord(c))
+            i += 1
+            continue
+        if i + 1 >= n:
+            return None, "dangling backslash"
+        e = text[i + 1]
+        if e == "\n" or (e == "\r" and i + 2 < n and text[i + 2] == "\n"):
+            i += 2 if e == "\n" else 3
+            while i < n and text[i] in " \t\n\r":
+                i += 1
+            continue
+        if e == "x":
+            try:
+                out.append(int(text[i + 2:i + 4], 16))
+            except ValueError:
+                return None, "bad \\x escape"
+            i += 4
+            continue
+        simple = {"0": 0, "n": 10, "r": 13, "t": 9, "\\": 92, "'": 39, '"': 34}
+        if e not in simple:
+            return None, "unknown escape \\%s" % e
+        out.append(simple[e])
+        i += 2
+    return None, "unterminated byte string"
+
+
+def check_custom_section(job, world, bindings, d):
+    """The component-type custom section every generated binding embeds: the
+    literal must have exactly the declared length and decode to the requested
+    world.  Returns None when fine, else a result dict."""
+    with open(bindings) as f:
+        text = f.read()
+    ms = list(_SECTION_RE.finditer(text))
+    if not ms:
+        return {"status": "inconclusive", "why": "no component-type custom section found in the bindings (extractor limitation)"}
+    for m in ms:
+        declared = int(m.group(2))
+        data, end = eval_byte_string(text, m.end())
+        if data is None:
+            return {"status": "inconclusive", "why": "custom-section literal could not be evaluated: %s" % end}
+        if len(data) != declared:
+            return {"status": "violation", "stage": "custom-section", "sig": "rust:custom-section:literal-length-mismatch",
+                    "what": "the component-type literal evaluates to %d bytes but is declared `[u8; %d]` (section %s)" % (len(data), declared, m.group(1)[:80]),
+                    "detail": "declared=%d evaluated=%d" % (declared, len(data))}
+        path = os.path.join(d, "component-type.bin")
+        with open(path, "wb") as f:
+            f.write(data)
+        r = compz.cz(["decode-check", "--bytes", path, "--wit", job["wit"], "--world", world])
+        if r.get("ok"):
+            continue
+        if r.get("stage") == "harness":
+            return {"status": "inconclusive", "why": "componentize decode-check: %s" % compz.normalise(r.get("error", ""))}
+        if r.get("stage") == "undecodable":
+            return {"status": "violation", "stage": "custom-section", "sig": "rust:custom-section:undecodable",
+                    "what": "the embedded component-type section does not decode: " + r.get("error", "")[:400], "detail": r.get("error", "")}
+        kinds = sorted({k for k, _ in r.get("diff", [])})
+        return {"status": "violation", "stage": "custom-section", "sig": "rust:custom-section:world-mismatch:" + "+".join(kinds),
+                "what": "the embedded component-type section describes a different world: " + "; ".join(x for _, x in r.get("diff", [])[:4]), "detail": ""}
+    return None
+
+
 def _first_error(text):
     for line in text.splitlines():
         m = re.match(r"error(\[E\d+\])?: (.*)$", line)
@@ -143,7 +226,22 @@ BUCKETS = [
     (r"conflicting implementations of trait `(Future|Stream)Payload`", "duplicate-payload-impl"),
     (r"match bindings cannot shadow tuple structs", "type-named-like-prelude-variant"),
 ]
+def _long_names_world():
+    """Names of 31/32/33 characters (length prefix 0x1f/0x20/0x21) at many different offsets of the component-type section."""
+    def nm(prefix, n):
+        return (prefix + "x" * 40)[:n]
+    lines = ["package a:lengths;", "interface i {"]
+    for k in range(14):
+        pad = "p" * (k + 1)
+        lines.append("  record %s { %s: u8, %s: u32 }" % (nm("r%dq" % k, 32), nm("f%dq" % k, 32), nm("g%dq" % k, 31 + (k % 3))))
+        lines.append("  %s: func(%s: %s, %s: u8) -> %s;" % (nm("fn%dq" % k, 32), nm("a%dq" % k, 32), nm("r%dq" % k, 32), pad, nm("r%dq" % k, 32)))
+    lines.append("}")
+    lines.append("world lengths { import i; export i; import %s: func(%s: u8); }" % (nm("wq", 32), nm("yq", 32)))
+    return "\n".join(lines) + "\n"
+
+
 DIRECTED = [
+    ("names-of-32-chars", "lengths", _long_names_world(), ["default"]),
     ("world-level-map-import", "w", "package a:b;\nworld w { import f: func(m: map<u32, string>) -> u32; }\n", ["default"]),
     ("raw-strings-two-byte-futures", "w", "package a:b;\ninterface i { f: func(a: future<string>, b: future<list<u8>>); }\nworld w { import i; }\n", ["raw-strings"]),
     ("keyword-package-names", "w", "package true:for;\ninterface i { f: func(); }\nworld w { import i; export i; }\n", ["default"]),
@@ -222,7 +320,10 @@ def run_job(job, workroot, ctx):
     env["BINDINGS"] = bindings
     for k in ("RUSTFLAGS", "RUSTC_WRAPPER"):
         env.pop(k, None)
-    res = {"status": "ok", "world": world, "native": 0, "wasm": False, "imports": 0, "exports": 0, "build_only": False}
+    bad = check_custom_section(job, world, bindings, d)
+    if bad:
+        return bad
+    res = {"status": "ok", "world": world, "native": 0, "wasm": False, "imports": 0, "exports": 0, "build_only": False, "section": True}
     if ctx.get("tier") == "quick":
         ctx = dict(ctx)
         ctx["editions"] = ("2024",) if int(vcommon.stable_hash(job["id"]), 16) % 2 else ("2021",)
